@@ -125,7 +125,7 @@ func rulePXNilGuard(c *Ctx) []Obligation {
 		fn := fname(f)
 		self := f
 		opq := func(g *ssa.Function) bool { return g != self && std(g) }
-		paths, trunc := c.Paths(f, PXConfig{Opaque: opq, MaxVisits: 3, MaxDepth: 4, MaxPaths: 60000})
+		paths, trunc := c.Paths(f, PXConfig{Opaque: opq, MaxVisits: 3, MaxDepth: 4, MaxIndex: 3, MaxPaths: 60000})
 		if trunc || len(paths) == 0 {
 			o.undecided(fn, "path enumeration", f.Pos(), "%d paths, truncated %v", len(paths), trunc)
 			continue
